@@ -18,12 +18,13 @@ from ..symex import And, Or, Not, Iff, Eq, is_sym
 ID = 'C19'
 ACTIONS = ['I do nothing', 'I send event go', 'I send event go with n=2', 'I send event nope',
            'I wait 3 seconds', 'I repeat "I send event go" 2 times', 'I send event back', 'I send event end',
-           'I reproduce "base"']
+           'I reproduce "base"', 'I repeat "I wait 3 seconds" 2 times']
 # the scenario that `I reproduce "base"` replays: its given/when steps are re-run with the calling keyword
 BASE = [('given', 'I send event go'), ('when', 'I send event back'), ('then', 'state A is active')]
 THENS = ['state B is entered', 'state B is not entered', 'state B is exited', 'state A is not exited',
          'state A is active', 'state C is not active', 'state nope is active',
          'event out is fired', 'event out is fired with v=5', 'event out is not fired', 'no event is fired',
+         'event alarm is fired', 'event alarm is not fired', 'state D is active',
          'event out is fired\n  | parameter | value |\n  | v | 5 |\n  | w | 16 |',
          'variable x equals 3', 'variable x does not equal 3', 'variable nope equals 1',
          'variable nothing equals None', 'variable nothing does not equal 3', 'variable zero equals 0',
@@ -44,10 +45,11 @@ LEVELS = {
     ],
 }
 WITNESSES = ['then_passed', 'then_failed', 'then_errored', 'symbolic_variable_assertion', 'symbolic_wait_crosses_timeout',
-             'quiescent_when_block', 'second_block_forgets_first', 'parameter_assertion_with_two_events']
+             'quiescent_when_block', 'second_block_forgets_first', 'parameter_assertion_with_two_events',
+             'nested_waits_cross_two_timeouts']
 STUBS = ['behave Context -> SimpleNamespace with execute_steps dispatching through behave.step_registry',
          'interpreter_klass injects initial_context {X0: symbolic integer, W: symbolic reals}']
-ASSUMPTIONS = ['one fixed chart (states A, B, C, final F; variable x; event out sent with v=x, w=x+1; timeout after(5) from A)',
+ASSUMPTIONS = ['one fixed chart (states A, B, C, D, final F; variables x, nothing, zero; event out sent with v=x, w=x+1; a notify; chained timeouts after(5) A->C->D)',
                'step texts come from the pools listed in the module (documented spelling); one step uses a Gherkin table']
 OUTSIDE = ['behave feature-file parsing, runner, formatters and exit codes (exercised only by concrete end-to-end replays)',
            'user-defined steps / map_action / map_assertion', 'charts other than the fixed one']
@@ -81,8 +83,15 @@ YAML = '''statechart:
         action: |
           x = x + 10
           send('out', v=x, w=x + 1)
+          notify('alarm', level=x)
           send('out', v=x + 3, w=x + 11)
     - name: C
+      transitions:
+      - target: A
+        event: back
+      - target: D
+        guard: after(5)
+    - name: D
       transitions:
       - target: A
         event: back
@@ -179,7 +188,8 @@ class Driver:
         reps = 1
         if text.startswith('I repeat'):
             reps = 2
-            text = 'I send event go'
+            text = text.split('"')[1]
+        wait = list(wait) if isinstance(wait, (list, tuple)) else [wait]
         for _ in range(reps):
             if text == 'I do nothing':
                 pass
@@ -191,7 +201,7 @@ class Driver:
                     params[k] = int(v)
                 it.queue(parts[3], **params)
             elif text.startswith('I wait'):
-                it.clock.time = it.clock.time + wait
+                it.clock.time = it.clock.time + wait.pop(0)
             steps = []
             while True:
                 s = it.execute_once()
@@ -327,9 +337,9 @@ def harness(g, job, level, canary=False):
         status = run_step(ctx, st)
         statuses.append(status)
         if kind in ('given', 'when'):
-            if t.startswith('I wait'):
-                g.prove(len(waits) == nw + 1, 'wait_step_matched', info)
-                w = waits[-1]
+            if 'I wait' in t:
+                g.prove(len(waits) == nw + (2 if t.startswith('I repeat') else 1), 'wait_step_matched', info)
+                w = waits[nw:]
             else:
                 w = 0
             was = ref.it.configuration
@@ -337,6 +347,8 @@ def harness(g, job, level, canary=False):
             g.prove(status == 'passed', 'action_step_runs', info)
             if t.startswith('I wait') and 'A' in was and 'C' in ref.it.configuration:
                 g.witness('symbolic_wait_crosses_timeout')
+            if t.startswith('I repeat "I wait') and 'A' in was and 'D' in ref.it.configuration:
+                g.witness('nested_waits_cross_two_timeouts')
             if kind == 'when' and not ref.block:
                 g.witness('quiescent_when_block')
             # the interpreter driven by the steps and the reference are in the same state
@@ -406,7 +418,7 @@ def post_levels(tier, seed, report):
     checked = 0
     for i, (a, t) in enumerate(pairs):
         ref = Driver(sc, {'X0': 2})
-        ref.act('when', a, 3)
+        ref.act('when', a, [3, 3])
         fact = bool(ref.fact(t))
         st = got.get('s%d' % i)
         if st is None:
